@@ -11,6 +11,8 @@ import (
 	"fmt"
 	"os"
 	"path/filepath"
+	"runtime/debug"
+	"runtime/pprof"
 	"sort"
 	"strconv"
 	"strings"
@@ -153,6 +155,7 @@ func cmdRun(args []string) int {
 	envs := fs.String("env", "", "k=v,... environment for os.Getenv")
 	tags := fs.String("tags", "", "build tags")
 	timeBudget := fs.Duration("time", 0, "wall-clock budget per harness (0 = none)")
+	cpuprof := fs.String("cpuprofile", "", "write CPU profile")
 	fs.Parse(args)
 
 	cfg := &runConfig{Solver: *solver, QueryTimeoutMs: *qto, StepBudget: *steps, MaxDecisions: *maxDec,
@@ -174,12 +177,18 @@ func cmdRun(args []string) int {
 		cfg.Env[p[0]] = p[1]
 	}
 
+	if *cpuprof != "" {
+		f, _ := os.Create(*cpuprof)
+		pprof.StartCPUProfile(f)
+		defer pprof.StopCPUProfile()
+	}
 	t0 := time.Now()
 	prog, pkg, err := loadProgram(*repo, *pkgPat, *overlayDir, *tags)
 	if err != nil {
 		fmt.Fprintln(os.Stderr, "symgo: load failed:", err)
 		return 3
 	}
+	debug.SetGCPercent(400)
 	fmt.Printf("symgo: loaded %s (%d packages) in %.1fs\n", pkg.Pkg.Path(), len(prog.AllPackages()), time.Since(t0).Seconds())
 
 	var results []*harnessResult
